@@ -122,3 +122,56 @@ func c06HostStates() []string {
 	}
 	return bad
 }
+
+// c06YieldOverflow: a yield whose payload does not fit the RESUMER's registry (the resumer being a coroutine, some calls
+// deep) is an ordinary error there, caught by pcall — and afterwards the resumer is still the running coroutine and the
+// yielder is not "running"/"normal" (wave-6 seeded change C06-m11 did the thread bookkeeping after the payload transfer).
+// Payload size × depth swept across the registry limit; below the limit the whole payload arrives.
+const c06OverflowProg = `
+local N, D = ...
+local function deep(n, f) if n == 0 then return f() end local a, b = deep(n - 1, f) return a, b end
+local yielder = coroutine.create(function()
+  local t = {} for i = 1, N do t[i] = i end
+  coroutine.yield(unpack(t)) return 'done'
+end)
+local resumer = coroutine.wrap(function()
+  local me = coroutine.running()
+  local ok, n, last = pcall(deep, D, function() local r = {coroutine.resume(yielder)} return #r, r[#r] end)
+  local st = coroutine.status(yielder)
+  return ok, ok and (n == N + 1 and last == N), coroutine.running() == me, st == 'suspended' or st == 'dead', coroutine.status(me)
+end)
+local ok, whole, stillme, sane, mystatus = resumer()
+local after = coroutine.wrap(function() coroutine.yield('alive') end)()
+return tostring(ok) .. ',' .. tostring(ok and whole or 'caught') .. ',' .. tostring(stillme) .. ',' .. tostring(sane) .. ',' .. mystatus .. ',' .. after`
+
+func c06YieldOverflow() []string {
+	var bad []string
+	for _, n := range []int{100, 3000, 4000, 4500, 4800, 4950, 5050, 5110} {
+		for _, d := range []int{0, 30, 100, 180} {
+			got := func() (res string) {
+				defer func() {
+					if r := recover(); r != nil {
+						res = fmt.Sprint("GOPANIC ", r)
+					}
+				}()
+				L := lua.NewState(lua.Options{CallStackSize: 256, RegistrySize: 5120})
+				defer L.Close()
+				fn, err := L.LoadString(c06OverflowProg)
+				if err != nil {
+					return "ERR " + err.Error()
+				}
+				L.Push(fn)
+				L.Push(lua.LNumber(n))
+				L.Push(lua.LNumber(d))
+				if err := L.PCall(2, 1, nil); err != nil {
+					return "ERR " + strings.ReplaceAll(err.Error(), "\n", " ")
+				}
+				return L.Get(-1).String()
+			}()
+			if got != "true,true,true,true,running,alive" && got != "false,caught,true,true,running,alive" {
+				bad = append(bad, fmt.Sprintf("X yield-overflow => payload %d, resumer depth %d: got=%s want=<ok>,<whole|caught>,true,true,running,alive", n, d, strings.ReplaceAll(got, " ", "_")))
+			}
+		}
+	}
+	return bad
+}
